@@ -188,6 +188,22 @@ def main(inp, outp):
         worst = max([np.linalg.norm(v[:3] - direct[:3]) for v in its.values()] + [0.0])
         clause("the state returned for a date does not depend on the output step or on propagate-vs-iterate (3 cm)", len(its) >= 3 and worst <= 3e-2,
                "rk/split-independence", f"output steps {sorted(its)}: worst difference {worst:.4g} m", data)
+        # a target date is an instant: the same instant carried by a Date of another time scale gives the same state
+        for method, hh in (("rk4", 60), ("dopri54", 60), ("euler", 10)):
+            for sgn in (1, -1):
+                tsec = sgn * (0.37 * T if method == "euler" else 1.3 * T)
+                tgt_utc = DATE + timedelta(seconds=tsec)
+                base = run(method, hh, tsec)
+                for sc in ("TT", "GPS", "TAI", "TDB"):
+                    propx = KeplerNum(timedelta(seconds=hh), earth, method=method, tol=1e-3)
+                    ox = Orbit(kep, DATE, "keplerian", "EME2000", propx).copy(form="cartesian")
+                    gotx = ox.propagate(tgt_utc.change_scale(sc))
+                    res["evaluations"] += 1
+                    dd = float(np.linalg.norm(np.asarray(gotx, float)[:3] - base[:3]))
+                    dtt = abs((gotx.date - tgt_utc).total_seconds())
+                    clause("a target date given in another time scale (same instant) gives the same state, dated at that instant (5 cm, 2 us)",
+                           dd <= 5e-2 and dtt <= 2e-6, f"rk/target-scale[{sc}]",
+                           f"{method} {hh} s, target {tsec:.0f} s in {sc}: {dd:.4g} m from the UTC-dated request, date off by {dtt:.3g} s", data)
         for sgn in (1, -1):
             one = np.asarray(o.propagate(DATE + timedelta(seconds=sgn * 2 * T)), float)
             half = o.propagate(DATE + timedelta(seconds=sgn * T))
